@@ -78,6 +78,11 @@ fn build_model(spec: &TrackSpec, cfg: &Cfg, via_builder_only: bool) -> (TrackSna
             add_observation(&mut t, 0, None, Some(&u), cfg, &mut f).unwrap();
             notes += 1;
         }
+        for a in &spec.absorbed {
+            let other = new_track(*a, cfg);
+            let cls: Vec<u64> = t.obs.keys().cloned().collect();
+            let _ = merge(&mut t, &other, &cls, true, cfg, &mut f);
+        }
     }
     (t, notes)
 }
@@ -85,8 +90,8 @@ fn build_model(spec: &TrackSpec, cfg: &Cfg, via_builder_only: bool) -> (TrackSna
 /// Builds an external track with the store's own builder. Whether creating a
 /// track notifies is not part of any property, so the notifications emitted here
 /// are measured (returned) and credited to the model instead of being predicted.
-fn build_real(store: &Store, env: &Env, notif: &Notif, spec: &TrackSpec, via_builder_only: bool) -> (STrack, u32) {
-    let before = notif.log.lock().unwrap().get(&spec.id).cloned().unwrap_or(0);
+fn build_real(store: &Store, env: &Env, notif: &Notif, spec: &TrackSpec, via_builder_only: bool) -> (STrack, BTreeMap<u64, u32>) {
+    let before = notif.log.lock().unwrap().clone();
     env.suspended.store(true, SeqCst);
     let mut b = store.new_track(spec.id);
     for (c, tag, q) in &spec.obs {
@@ -105,10 +110,23 @@ fn build_real(store: &Store, env: &Env, notif: &Notif, spec: &TrackSpec, via_bui
         ] {
             t.add_observation(0, None, None, Some(u)).unwrap();
         }
+        for a in &spec.absorbed {
+            let other = store.new_track(*a).build().expect("suspended build cannot fail");
+            let mut cls = t.get_feature_classes();
+            cls.sort();
+            let _ = t.merge(&other, &cls, true);
+        }
     }
     env.suspended.store(false, SeqCst);
-    let after = notif.log.lock().unwrap().get(&spec.id).cloned().unwrap_or(0);
-    (t, after - before)
+    let after = notif.log.lock().unwrap().clone();
+    let mut delta = BTreeMap::new();
+    for (id, n) in &after {
+        let d = n - before.get(id).cloned().unwrap_or(0);
+        if d > 0 {
+            delta.insert(*id, d);
+        }
+    }
+    (t, delta)
 }
 
 fn status_code(s: &anyhow::Result<TrackStatus>) -> u8 {
@@ -195,7 +213,7 @@ impl<'a> Client<'a> {
         let mut p = clause_property(clause);
         // a store whose contents are wrong after a failed operation is also not a
         // faithful map: C09 reports these too (C11 owns the atomicity wording)
-        if self.prop == "C09" && matches!(clause, "atomicity" | "owned-merge-restores") {
+        if self.prop == "C09" && matches!(clause, "atomicity" | "owned-merge-restores" | "merge-history") {
             p = "C09";
         }
         if p == self.prop {
@@ -520,7 +538,9 @@ impl<'a> Client<'a> {
                 let (t, notes) = build_real(&self.store, &self.env, &self.notif, spec, builder_only);
                 let (mt, _) = build_model(spec, &self.cfg, builder_only);
                 for c in &mut self.model.cands {
-                    c.note(spec.id, notes);
+                    for (id, n) in &notes {
+                        c.note(*id, *n);
+                    }
                 }
                 let r = match self.store.add_track(t) {
                     Ok(_) => Ret::Ok,
@@ -683,7 +703,9 @@ impl<'a> Client<'a> {
                 let (t, notes) = build_real(&self.store, &self.env, &self.notif, src, false);
                 let (mt, _) = build_model(src, &self.cfg, false);
                 for c in &mut self.model.cands {
-                    c.note(src.id, notes);
+                    for (id, n) in &notes {
+                        c.note(*id, *n);
+                    }
                 }
                 self.env.reset_counter();
                 if let Some(n) = fail_nth {
@@ -712,7 +734,9 @@ impl<'a> Client<'a> {
                 let (t, notes) = build_real(&self.store, &self.env, &self.notif, src, false);
                 let (mt, _) = build_model(src, &self.cfg, false);
                 for c in &mut self.model.cands {
-                    c.note(src.id, notes);
+                    for (id, n) in &notes {
+                        c.note(*id, *n);
+                    }
                 }
                 match self.store.merge_external_noblock(*dest, t, classes.as_deref(), *hist) {
                     Ok(f) => {
@@ -852,7 +876,9 @@ impl<'a> Client<'a> {
                     real.push(rt_);
                     let (mt, _) = build_model(s, &self.cfg, false);
                     for c in &mut self.model.cands {
-                        c.note(s.id, notes);
+                        for (id, n) in &notes {
+                            c.note(*id, *n);
+                        }
                     }
                     ms.push(mt);
                 }
